@@ -426,10 +426,6 @@ package commands
 //@   props C14
 //@   modifies fresh, ghost listcount[o]
 //@   ensures listcount(o) == old(listcount(o)) + 1
-//@ func github.com/git-lfs/git-lfs/v3/tools.Spool
-//@   assumed
-//@   props C14
-//@   modifies all
 //@ func (*github.com/git-lfs/git-lfs/v3/lfs.Pointer).Encode
 //@   assumed
 //@   props C14
@@ -515,10 +511,14 @@ package commands
 //@   props C14
 //@   modifies fresh, fields o
 //@   ensures result ==> o.req != nil && o.req.Header != nil && o.req.Payload != nil
+// C08, smudge side: input that does not decode as a pointer is handed back
+// byte for byte (spooled through a temp file), and reported as "not a pointer"
+// only when it was not empty.
 //@ func smudge
-//@   assumed
-//@   props C14
-//@   modifies all
+//@   props C08
+//@   requires @inv gf != nil && to != nil && from != nil && !dyntype(to, "*os.File") && !is_tee(to)
+//@   at call tools.Spool:1 assert arg0__ == to && rrest(arg1__) == old(rrest(from)) && wbuf(to) == old(wbuf(to))
+//@   at call errors.NewNotAPointerError:1 assert wbuf(to) == scat(old(wbuf(to)), old(rrest(from))) && len(old(rrest(from))) != 0
 //@ func readAvailable
 //@   assumed
 //@   props C14
